@@ -23,7 +23,8 @@ RULE = (
     "exhaustive part: every stream up to length LA over the 8-symbol alphabet {7E,7D,A0,07,08,21,02,5E} (byte-at-a-time and every single cut) "
     "and every stream up to length LB over {7E,7D,00,07,21} (long enough to contain complete frames: byte-at-a-time, two random cuts), each under "
     "the 4 reader configurations, each followed by a clean two-frame suffix; reference = the same stream in one read() call. "
-    "random part: flag/escape-dense and uniform streams up to 400 octets and C01's corrupted-frame streams under random multi-cuts and fixed sizes. "
+    "random part: flag/escape-dense and uniform streams up to 400 octets, long homogeneous runs, C01's corrupted-frame streams (some 10..40 KB so that limits are crossed inside one read()) "
+    "under random multi-cuts, fixed sizes, cuts near multiples of 2047/2048/8191/8192 and cuts right after every n-th flag; plus twin executions: two reader objects fed alternately must each return what they return alone. "
     "evaluations = executions of the reader; distinct non-trivial = distinct (configuration, stream) pairs compared under >= 2 splittings "
     "(exhaustive part distinct by construction). quick: LA=5, LB=7; thorough: LA=6, LB=9."
 )
@@ -124,21 +125,79 @@ def run(shard: dict, ctx) -> None:
                 stream, fl = hdlc_gen.noise(rng, rng.randint(1, 400), "dense")
             elif r < 0.55:
                 stream, fl = hdlc_gen.noise(rng, rng.randint(1, 400), "random")
+            elif r < 0.58:
+                stream, fl = hdlc_gen.long_run(rng)
+                fl = "long_run"
+            elif r < 0.595:
+                stream, _ = c01mod.make_stream(rng, cfg, big=True)  # 10..40 KB: limits are crossed inside one read()
+                fl = "big_frames"
             else:
                 stream, _ = c01mod.make_stream(rng, cfg)
                 fl = "frames"
             total = len(stream) + len(suffix(cfg))
-            specs = [splits.random_spec(rng, total) for _ in range(4)] + [("bytewise",)]
+            specs = [splits.random_spec(rng, total) for _ in range(3)] + [splits.limit_spec(rng, total), splits.aligned_spec(stream, 0x7E, rng.choice((1, 2, 4)))]
+            specs.append(("bytewise",) if total < 5000 else ("fixed", rng.choice((1000, 4096, 8192)), rng.randrange(1000)))
             n = compare(cfg, stream, specs, ctx, states)
             ctx.case(bytes(cfg) + stream, True, n)
             ctx.count(f"random_{fl}")
+            if i % 4 == 0:
+                twin(rng, ctx)
             if i < 1:
                 ctx.sample({"cfg": list(cfg), "kind": fl, "stream": stream[:120], "splits": [list(s)[:2] for s in specs]})
     for s in states:
         ctx.seen("state_at_cut_point(hunt,pending_escape,partial)", s)
 
 
+def twin(rng, ctx) -> None:
+    """Two reader objects fed alternately must each behave exactly as when used alone (no state shared between instances)."""
+    cfgs = [hdlc_gen.CONFIGS[rng.randrange(4)] for _ in range(2)]
+    streams = [c01mod.make_stream(rng, c)[0] + suffix(c) for c in cfgs]
+    chunk_lists = [splits.chunks(st, splits.random_spec(rng, len(st)) if rng.random() < 0.7 else ("bytewise",)) for st in streams]
+    solo = []
+    for c, chunks in zip(cfgs, chunk_lists):
+        obs, exc = hdlc_mon.run(c, chunks)
+        solo.append([hdlc_mon.triple(o) for o in obs])
+    readers = [hdlc_mon.new_reader(c) for c in cfgs]
+    got = [[], []]
+    idx = [0, 0]
+    order = []
+    while idx[0] < len(chunk_lists[0]) or idx[1] < len(chunk_lists[1]):
+        k = rng.randrange(2)
+        if idx[k] >= len(chunk_lists[k]):
+            k = 1 - k
+        order.append(k)
+        try:
+            for f in readers[k].read(chunk_lists[k][idx[k]]):
+                got[k].append(hdlc_mon.triple(hdlc_mon.observe(f)))
+        except Exception:
+            ctx.count("read_raised(decided by C14)")
+        idx[k] += 1
+    ctx.count("twin_executions")
+    for k in range(2):
+        if got[k] != solo[k]:
+            ctx.violation("C06:instances-share-state", f"reader {k} (cfg {cfgs[k]}) returned {len(got[k])} frames when interleaved with another reader object, {len(solo[k])} when used alone",
+                          {"twin": True, "cfgs": [list(c) for c in cfgs], "chunks": [list(cl) for cl in chunk_lists], "order": order})
+
+
+def replay_twin(case, ctx) -> None:
+    cfgs = [tuple(c) for c in case["cfgs"]]
+    solo = [[hdlc_mon.triple(o) for o in hdlc_mon.run(c, chunks)[0]] for c, chunks in zip(cfgs, case["chunks"])]
+    readers = [hdlc_mon.new_reader(c) for c in cfgs]
+    got = [[], []]
+    idx = [0, 0]
+    for k in case["order"]:
+        for f in readers[k].read(case["chunks"][k][idx[k]]):
+            got[k].append(hdlc_mon.triple(hdlc_mon.observe(f)))
+        idx[k] += 1
+    for k in range(2):
+        if got[k] != solo[k]:
+            ctx.violation("C06:instances-share-state", f"reader {k} differs when interleaved", case)
+
+
 def replay(case: dict, ctx) -> None:
+    if case.get("twin"):
+        replay_twin(case, ctx)
+        return
     compare(tuple(case["cfg"]), case["stream"], [tuple(case["split"])], ctx)
 
 
